@@ -191,6 +191,11 @@ class LayerRule(
                 "Layer rule subjects cannot be specified in batch."
             )
 
+        if self._rule.rule_subjects and self._rule._modules_to_check_to_be_specified_next:  # type: ignore
+            raise ImproperlyConfigured(
+                "Only one layer rule subject can be specified."
+            )
+
         layers = self._listify(layers)
         modules = self._get_all_modules_in_layers(layers)
 
